@@ -265,6 +265,7 @@ type Engine struct {
 	cells     *cellIndex
 	Inlined   map[*ssa.Function]bool
 	phiBusy   map[*ssa.Phi]bool
+	evFree    map[*ssa.Function]bool
 	Budget    int
 	Exhausted bool
 	// Resolve optionally maps an interface invoke to the single in-scope method that
@@ -539,6 +540,44 @@ func (e *Engine) canon(fc *FrameCtx, v ssa.Value, depth int) (string, bool) {
 		return "slice(" + s + ")@" + e.valID(fc, v), true
 	}
 	return "v:" + e.valID(fc, v), true
+}
+
+// ArgValue follows a parameter of an inlined frame to the argument value in the calling
+// frame (repeatedly), and a load of a single-store local cell to the stored value.
+func (e *Engine) ArgValue(fc *FrameCtx, v ssa.Value) (ssa.Value, *FrameCtx) {
+	for i := 0; i < 12; i++ {
+		v = stripConv(v)
+		switch x := v.(type) {
+		case *ssa.Parameter:
+			c := e.ctxOfOr(fc, x.Parent())
+			if c == nil || c.args == nil || c.parent == nil {
+				return v, fc
+			}
+			idx := -1
+			for j, p := range c.fn.Params {
+				if p == x {
+					idx = j
+				}
+			}
+			if idx < 0 || idx >= len(c.args) {
+				return v, fc
+			}
+			v, fc = c.args[idx], c.parent
+		case *ssa.UnOp:
+			if x.Op != token.MUL {
+				return v, fc
+			}
+			a := e.allocOf(x.X)
+			if a == nil || len(e.cells.stores[a]) != 1 {
+				return v, fc
+			}
+			v = e.cells.stores[a][0]
+			fc = e.ctxOfOr(fc, a.Parent())
+		default:
+			return v, fc
+		}
+	}
+	return v, fc
 }
 
 func (e *Engine) valID(fc *FrameCtx, v ssa.Value) string {
@@ -908,7 +947,7 @@ func (e *Engine) explore(st *State) {
 				e.noteRecover(st)
 			}
 			callee, mc := e.StaticCallee(fc, in.Common())
-			if callee != nil && e.P.InScope(callee) && len(callee.Blocks) > 0 && e.rule.Inline(callee) && !fc.onStack(callee) {
+			if callee != nil && e.P.InScope(callee) && len(callee.Blocks) > 0 && e.rule.Inline(callee) && !fc.onStack(callee) && !e.eventFree(callee) {
 				t.idx++ // continuation
 				nfc := &FrameCtx{id: fc.id + ">" + in.(ssa.Value).Name(), fn: callee, parent: fc, args: callArgs(in.Common()), closure: mc, depth: fc.depth + 1, site: in}
 				st.stack = append(st.stack, ctl{fc: nfc, blk: callee.Blocks[0]})
@@ -937,6 +976,75 @@ func (e *Engine) explore(st *State) {
 			continue
 		}
 	}
+}
+
+// eventFree: fn contains nothing any rule observes — no dynamic call, interface invoke,
+// go/defer/panic, store through a pointer, call into the analysed module or into sync /
+// sync/atomic, and no closure. Exploring its branches only multiplies paths, so such a
+// helper (a reflective predicate, a formatting function) is stepped over.
+func (e *Engine) eventFree(fn *ssa.Function) bool {
+	if v, ok := e.evFree[fn]; ok {
+		return v
+	}
+	if e.evFree == nil {
+		e.evFree = map[*ssa.Function]bool{}
+	}
+	free := len(fn.AnonFuncs) == 0 && fn.Parent() == nil
+	for _, b := range fn.Blocks {
+		if !free {
+			break
+		}
+		for _, in := range b.Instrs {
+			switch x := in.(type) {
+			case *ssa.Go, *ssa.Defer, *ssa.Panic, *ssa.MapUpdate, *ssa.Send, *ssa.Select, *ssa.MakeClosure:
+				free = false
+			case *ssa.Store:
+				a := x.Addr
+				for {
+					if ia, ok := a.(*ssa.IndexAddr); ok {
+						a = ia.X
+						continue
+					}
+					if fa, ok := a.(*ssa.FieldAddr); ok {
+						a = fa.X
+						continue
+					}
+					break
+				}
+				if _, local := a.(*ssa.Alloc); !local {
+					free = false
+				}
+			case *ssa.Call:
+				c := x.Common()
+				if c.IsInvoke() {
+					// methods of reflect's own interfaces (reflect.Type) are not events
+					if nt, ok := c.Value.Type().(*types.Named); !ok || nt.Obj().Pkg() == nil || nt.Obj().Pkg().Path() != "reflect" {
+						free = false
+					}
+					break
+				}
+				if isDynamicCall(c) {
+					free = false
+					break
+				}
+				if sc := c.StaticCallee(); sc != nil {
+					if e.P.InScope(sc) {
+						free = false
+					}
+					switch PkgOf(sc) {
+					case "sync", "sync/atomic", "context", "database/sql":
+						free = false
+					}
+				}
+			case *ssa.UnOp:
+				if x.Op == token.ARROW {
+					free = false
+				}
+			}
+		}
+	}
+	e.evFree[fn] = free
+	return free
 }
 
 // syncCallback: the call goes to a standard-library function known to invoke its function
